@@ -28,6 +28,33 @@ CellCount(s1, s2, sel, wts, c) ==
   FoldLeft(LAMBDA acc, l : acc + Wq(wts, l), 0, SetToSeq({l \in InfoSites(s1, s2, sel) : <<AAIdx(s1[l]), AAIdx(s2[l])>> = c}))
 TotalCount(s1, s2, sel, wts) == FoldLeft(LAMBDA acc, l : acc + Wq(wts, l), 0, SetToSeq(InfoSites(s1, s2, sel)))
 
+\* ---- frequencies ------------------------------------------------------------------------------------
+\* the alignment's own ("empirical") frequencies, distance/protein aaFrequency: every selected cell adds its site weight to
+\* its amino acid, a cell holding anything else adds a twentieth of it to each; when some amino acid ends below 1/20 every
+\* count gets a pseudo-count of 1.  In units of 1/80 (weights are logged in quarters): N[i] = 20 A[i] + B.
+EmpFreqs(rows, sel, wts) ==
+  LET cells == (1..Len(rows)) \X sel
+      A(i) == FoldLeft(LAMBDA acc, c : acc + Wq(wts, c[2]), 0, SetToSeq({c \in cells : AAIdx(rows[c[1]][c[2]]) = i}))
+      B == FoldLeft(LAMBDA acc, c : acc + Wq(wts, c[2]), 0, SetToSeq({c \in cells : AAIdx(rows[c[1]][c[2]]) = 0}))
+      N0 == [i \in 1..20 |-> 20 * A(i) + B]
+      pseudo == \E i \in 1..20 : N0[i] < 4
+      N == [i \in 1..20 |-> IF pseudo THEN N0[i] + 80 ELSE N0[i]]
+      tot == FoldLeft(LAMBDA acc, i : acc + N[i], 0, [i \in 1..20 |-> i])
+  IN [i \in 1..20 |-> FRat(N[i], tot)]
+\* ---- the eigensystem in use describes a rate matrix that fits the frequencies in use --------------------
+\* P(t) = U exp(eval t) V; Q = U diag(eval) V.  Whatever the exchangeabilities, a model built for the frequencies pi is
+\* reversible with respect to pi, its P(t) is a stochastic matrix and its mean rate -sum_i pi_i Q_ii is 1.
+PAt(es, t, i, j) == FDot([k \in 1..20 |-> FMul(es.U[i][k], es.Vcol[j][k])], [k \in 1..20 |-> FExp(FMul(es.eval[k], t))])
+QAt(es, i, j) == FDot([k \in 1..20 |-> FMul(es.U[i][k], es.Vcol[j][k])], es.eval)
+EigenChecks(es) ==
+  LET t == FParse("0.5")
+      P == Strict([i \in 1..20 |-> [j \in 1..20 |-> PAt(es, t, i, j)]])
+      tol == FParse("1e-6")  eps == FParse("1e-9")
+  IN [reversible |-> \A i, j \in 1..20 : i < j => FClose(FMul(es.pi[i], P[i][j]), FMul(es.pi[j], P[j][i]), tol, eps),
+      stochastic |-> \A i \in 1..20 : FClose(FSum(P[i]), FInt(1), tol, eps) /\ \A j \in 1..20 : FLe(FNeg(eps), P[i][j]),
+      unitRate   |-> FClose(FNeg(FSum([i \in 1..20 |-> FMul(es.pi[i], QAt(es, i, i))])), FInt(1), tol, eps),
+      piSimplex  |-> FClose(FSum(es.pi), FInt(1), tol, eps) /\ \A i \in 1..20 : FLt(FInt(0), es.pi[i])]
+
 \* ---- likelihood ------------------------------------------------------------------------------------
 BLMin == FParse("1e-08")
 BLMax == FInt(100)
